@@ -7,6 +7,8 @@ cd /repo
 git apply --cached /verif/work/fixes/$FID.diff
 git commit -qm "$(cat /verif/work/fixes/$FID.msg)"
 h=$(git rev-parse --short HEAD)
+# --cached only stages: bring the working tree copies of the patched files to the committed state
+git checkout -- $(git show --name-only --format= HEAD)
 python3 - $PID $FID $h <<'PY'
 import json,sys,glob
 pid,fid,h=sys.argv[1:4]
